@@ -28,6 +28,8 @@ import ast
 import sys
 from pathlib import Path
 
+sys.path.insert(0, str(Path(__file__).resolve().parent))
+
 
 class Unsupported(Exception):
     pass
@@ -42,6 +44,9 @@ COQ_KEYWORDS = {"at", "as", "end", "in", "match", "return", "with", "fix", "let"
                 "Type", "Set", "Prop", "where", "struct", "for", "cofix", "IF", "by", "do", "is", "of", "mod", "self_"}
 EXNS = {"KeyError", "IndexError", "AssertionError", "TypeError", "ValueError", "JellyConformanceError", "JellyAssertionError",
         "JellyNotImplementedError"}
+
+
+ENUM_TYPES: dict[str, dict[str, int]] = {}  # filled from the descriptor in rdf_pb2.py by translate_unit
 
 
 def mangle(name: str) -> str:
@@ -80,9 +85,13 @@ def ann_type(a, classes) -> object:
     if isinstance(a, ast.Name):
         if a.id in ("int", "bool", "str"):
             return a.id
+        if a.id == "bytes":
+            return ("seq", "int")
         if a.id in classes:
             return ("obj", a.id)
         bad(a, "annotation")
+    if isinstance(a, ast.Attribute) and isinstance(a.value, ast.Name) and a.value.id == "jelly" and a.attr in ENUM_TYPES:
+        return "int"  # protobuf enum values are ints
     if isinstance(a, ast.BinOp) and isinstance(a.op, ast.BitOr):
         l, r = ann_type(a.left, classes), ann_type(a.right, classes)
         if r == "none":
@@ -116,6 +125,8 @@ class Translator:
     def __init__(self, consts: dict[str, int]):
         self.consts = consts
         self.classes: dict[str, ClassInfo] = {}
+        self.functions: dict[str, tuple[list, object]] = {}
+        self.int_sets: dict[str, list] = {}
         self.out: list[str] = []
         self.fresh = 0
 
@@ -125,6 +136,9 @@ class Translator:
 
     # ------------------------------------------------------------------ classes
     def add_class(self, node: ast.ClassDef):
+        if any(isinstance(d, ast.Call) and isinstance(d.func, ast.Name) and d.func.id == "dataclass" for d in node.decorator_list) \
+                and not any(isinstance(n, ast.FunctionDef) and n.name == "__init__" for n in node.body):
+            return self.add_dataclass(node)
         info = ClassInfo(node.name)
         self.classes[node.name] = info
         methods = [n for n in node.body if isinstance(n, ast.FunctionDef) and n.name != "__repr__"]
@@ -182,6 +196,69 @@ class Translator:
             self.out.append(f"Definition {info.name}_{m.name} {ps} (self : {info.name}) : outcome {coq_type(ret)} * {info.name} :=\n{body}.")
 
 
+def _add_dataclass(self, node: ast.ClassDef):
+    """@dataclass without a hand-written __init__: the fields are the annotated class attributes, the
+    constructor takes them all and then runs __post_init__."""
+    info = ClassInfo(node.name)
+    self.classes[node.name] = info
+    methods = []
+    for n in node.body:
+        if isinstance(n, ast.Expr) and isinstance(n.value, ast.Constant) and isinstance(n.value.value, str):
+            continue
+        if isinstance(n, ast.AnnAssign) and isinstance(n.target, ast.Name):
+            info.fields.append((n.target.id, ann_type(n.annotation, self.classes)))
+            continue
+        if isinstance(n, ast.FunctionDef):
+            decos = [ast.unparse(d) for d in n.decorator_list]
+            if n.name == "__repr__" or "classmethod" in decos:
+                continue  # not part of the state machine: alternative constructors, printing
+            if decos not in ([], ["property"]):
+                bad(n, "decorator")
+            methods.append(n)
+            continue
+        bad(n, "class-level statement")
+    for m in methods:
+        a = m.args
+        if a.vararg or a.kwarg or a.posonlyargs or a.defaults or a.kwonlyargs:
+            bad(m, "parameter kinds / defaults")
+        info.methods[m.name] = ([(p.arg, ann_type(p.annotation, self.classes)) for p in a.args[1:]], ann_type(m.returns, self.classes))
+    info.methods["__init__"] = (list(info.fields), ("obj", node.name))
+    self.out.append(f"Record {info.name} := mk_{info.name} {{ " + "; ".join(f"{info.name}_{f} : {coq_type(t)}" for f, t in info.fields) + " }.")
+    for i, (f, t) in enumerate(info.fields):
+        args = " ".join(("v" if j == i else f"({info.name}_{g} self)") for j, (g, _) in enumerate(info.fields))
+        self.out.append(f"Definition set_{info.name}_{f} (v : {coq_type(t)}) (self : {info.name}) : {info.name} := mk_{info.name} {args}.")
+    post = next((m for m in methods if m.name == "__post_init__"), None)
+    for m in ([post] if post else []) + [m for m in methods if m is not post]:
+        params, ret = info.methods[m.name]
+        mode = MethodMode(self, info, ret)
+        body = mode.stmts(m.body, {p: t for p, t in params})
+        ps = " ".join(f"({mangle(p)} : {coq_type(t)})" for p, t in params)
+        self.out.append(f"Definition {info.name}_{m.name} {ps} (self : {info.name}) : outcome {coq_type(ret)} * {info.name} :=\n{body}.")
+    ps = " ".join(f"({mangle(f)} : {coq_type(t)})" for f, t in info.fields)
+    mk = f"mk_{info.name} " + " ".join(mangle(f) for f, _ in info.fields)
+    if post:
+        self.out.append(f"Definition {info.name}___init__ {ps} : outcome {info.name} :=\nlet '(r, self) := {info.name}___post_init__ ({mk}) in\n"
+                        f"match r with Exn e => Exn e | Val _ => Val self end.")
+    else:
+        self.out.append(f"Definition {info.name}___init__ {ps} : outcome {info.name} := Val ({mk}).")
+
+
+Translator.add_dataclass = _add_dataclass
+
+
+def add_function(tr: Translator, node: ast.FunctionDef):
+    a = node.args
+    if a.vararg or a.kwarg or a.posonlyargs or a.defaults or any(d is not None for d in a.kw_defaults):
+        bad(node, "parameter kinds / defaults")
+    params = [(p.arg, ann_type(p.annotation, tr.classes)) for p in (a.args + a.kwonlyargs)]
+    ret = ann_type(node.returns, tr.classes)
+    mode = FuncMode(tr, ret)
+    body = mode.stmts(node.body, {p: t for p, t in params})
+    ps = " ".join(f"({mangle(p)} : {coq_type(t)})" for p, t in params)
+    tr.out.append(f"Definition {node.name} {ps} : outcome {coq_type(ret)} :=\n{body}.")
+    tr.functions[node.name] = (params, ret)
+
+
 class Mode:
     """Statement / expression translation shared by methods and __init__."""
 
@@ -203,6 +280,10 @@ class Mode:
         s, rest = ss[0], ss[1:]
         if isinstance(s, ast.Expr) and isinstance(s.value, ast.Constant) and isinstance(s.value.value, str):
             return self.stmts(rest, env)
+        if (isinstance(s, ast.Expr) and isinstance(s.value, ast.Call) and ast.unparse(s.value.func) == "object.__setattr__" and len(s.value.args) == 3
+                and isinstance(s.value.args[0], ast.Name) and s.value.args[0].id == "self" and isinstance(s.value.args[1], ast.Constant)
+                and isinstance(s.value.args[1].value, str) and not s.value.keywords):
+            return self.expr(s.value.args[2], env, lambda v, t: self.write_field(s.value.args[1].value, v, t, lambda: self.stmts(rest, env)))
         if isinstance(s, ast.Expr) and isinstance(s.value, ast.Call):
             return self.expr(s.value, env, lambda v, t: self.stmts(rest, env))
         if isinstance(s, ast.Return):
@@ -263,6 +344,21 @@ class Mode:
                 if s.value is None:
                     bad(s, "bare annotation")
             val = s.value
+            # the name of an enum value, used in messages only: jelly.<Enum>.Name(x) raises ValueError for a number
+            # that is not a value of the enum
+            if (isinstance(tgt, ast.Name) and isinstance(val, ast.Call) and isinstance(val.func, ast.Attribute) and val.func.attr == "Name"
+                    and isinstance(val.func.value, ast.Attribute) and isinstance(val.func.value.value, ast.Name) and val.func.value.value.id == "jelly"
+                    and val.func.value.attr in ENUM_TYPES and len(val.args) == 1 and not val.keywords):
+                nums = sorted(set(ENUM_TYPES[val.func.value.attr].values()))
+
+                def k_en(v, t, tgt=tgt):
+                    if t != "int":
+                        bad(s, "enum Name of a non-int")
+                    env2 = dict(env)
+                    env2[tgt.id] = "msg"
+                    test = "(" + " || ".join(f"({v} =? {n})" for n in nums) + ")"
+                    return f"if {test} then\n{self.stmts(rest, env2)}\nelse {self.on_exn('ValueError')}"
+                return self.expr(val.args[0], env, k_en)
             # message strings
             if isinstance(tgt, ast.Name) and isinstance(val, (ast.JoinedStr, ast.Constant)) and (isinstance(val, ast.JoinedStr) or isinstance(val.value, str)):
                 if isinstance(val, ast.JoinedStr):
@@ -353,9 +449,14 @@ class Mode:
     def cond(self, e, env, k) -> str:
         if isinstance(e, ast.UnaryOp) and isinstance(e.op, ast.Not):
             return self.cond(e.operand, env, lambda c: k(f"(negb {c})"))
+        if isinstance(e, ast.BoolOp) and not all(is_pure(v) for v in e.values[1:]):
+            # an operand that can raise (a subscript, a call) is evaluated only when Python evaluates it
+            is_and = isinstance(e.op, ast.And)
+            tail = e.values[1] if len(e.values) == 2 else ast.BoolOp(op=e.op, values=e.values[1:])
+            return self.cond(e.values[0], env, lambda c: (
+                f"(if {c} then\n{self.cond(tail, env, k)}\nelse {k('false')})" if is_and
+                else f"(if {c} then {k('true')} else\n{self.cond(tail, env, k)})"))
         if isinstance(e, ast.BoolOp):
-            if not all(is_pure(v) for v in e.values[1:]):
-                bad(e, "effect in a short-circuit operand")
             op = "&&" if isinstance(e.op, ast.And) else "||"
 
             def go(vals, acc):
@@ -407,6 +508,11 @@ class Mode:
             if e.id in tr.consts:
                 return k(f"({tr.consts[e.id]})", "int")
             bad(e, "unknown name")
+        if isinstance(e, ast.Attribute) and isinstance(e.value, ast.Name) and e.value.id == "jelly":
+            for vals in ENUM_TYPES.values():
+                if e.attr in vals:
+                    return k(f"({vals[e.attr]})", "int")
+            bad(e, "unknown constant of the jelly module")
         if isinstance(e, ast.Attribute):
             v, t = self.attr(e)
             return k(v, t)
@@ -422,9 +528,12 @@ class Mode:
             bad(e, "binary operator")
         if isinstance(e, ast.UnaryOp) and isinstance(e.op, ast.Not):
             return self.cond(e, env, lambda c: k(c, "bool"))
+        if isinstance(e, ast.BoolOp) and (not all(is_pure(v) for v in e.values[1:]) or len(e.values) != 2):
+            # only as a truth value (every operand a test)
+            if all(isinstance(v, (ast.Compare, ast.BoolOp)) or (isinstance(v, ast.UnaryOp) and isinstance(v.op, ast.Not)) for v in e.values):
+                return self.cond(e, env, lambda c: k(c, "bool"))
+            bad(e, "and/or shape")
         if isinstance(e, ast.BoolOp):
-            if not all(is_pure(v) for v in e.values[1:]) or len(e.values) != 2:
-                bad(e, "and/or shape")
             is_or = isinstance(e.op, ast.Or)
 
             def both(a, at):
@@ -462,6 +571,19 @@ class Mode:
             return self.cond(ast.BoolOp(op=ast.And(), values=parts), env, lambda c: k(c, "bool"))
         if isinstance(e, ast.Compare):
             op, l, r = e.ops[0], e.left, e.comparators[0]
+            if isinstance(op, (ast.In, ast.NotIn)) and (isinstance(r, ast.Tuple) or (isinstance(r, ast.Name) and r.id in tr.int_sets)):
+                members = r.elts if isinstance(r, ast.Tuple) else tr.int_sets[r.id]
+                if not all(is_pure(m) for m in members):
+                    bad(e, "effect inside a membership test")
+
+                def k_x(a, at):
+                    def go(ms, acc):
+                        if not ms:
+                            c = "(" + " || ".join(acc) + ")" if acc else "false"
+                            return k(c if isinstance(op, ast.In) else f"(negb {c})", "bool")
+                        return self.expr(ms[0], env, lambda b, bt: go(ms[1:], acc + [f"({a} =? {b})"]) if (at, bt) == ("int", "int") else bad(e, "membership of non-ints"))
+                    return go(list(members), [])
+                return self.expr(l, env, k_x)
             if isinstance(op, (ast.In, ast.NotIn)):
                 def k_in(a, at):
                     def k_d(d, dt):
@@ -490,8 +612,9 @@ class Mode:
                     if (at, bt) == ("str", "str") and isinstance(op, (ast.Eq, ast.NotEq)):
                         c = f"(eqb {a} {b})"
                         return k(c if isinstance(op, ast.Eq) else f"(negb {c})", "bool")
-                    if (at, bt) == ("bool", "bool") and isinstance(op, ast.Eq):
-                        return k(f"(Bool.eqb {a} {b})", "bool")
+                    if (at, bt) == ("bool", "bool") and isinstance(op, (ast.Eq, ast.NotEq)):
+                        c = f"(Bool.eqb {a} {b})"
+                        return k(c if isinstance(op, ast.Eq) else f"(negb {c})", "bool")
                     bad(e, f"comparison of {at} and {bt}")
                 return self.expr(r, env, k_r)
             return self.expr(l, env, k_l)
@@ -549,6 +672,11 @@ class Mode:
         tr = self.tr
         f = e.func
         r, o, ex, x = tr.gensym("r"), tr.gensym("o"), tr.gensym("e"), tr.gensym("x")
+        # module-level functions of the unit
+        if isinstance(f, ast.Name) and f.id in tr.functions:
+            params, ret = tr.functions[f.id]
+            return self.args(e, params, env, lambda a: (
+                f"match {f.id} {' '.join(a)} with\n| Exn {ex} => {self.on_exn(ex)}\n| Val {x} =>\n{k('tt' if ret == 'none' else x, ret)}\nend"))
         # min(..) / max(..) of ints
         if isinstance(f, ast.Name) and f.id in ("min", "max") and len(e.args) >= 2 and not e.keywords:
             def go(rest, acc):
@@ -649,6 +777,42 @@ class MethodMode(Mode):
                 f"| Val {x} =>\n{k('tt' if ret == 'none' else x, ret)}\nend")
 
 
+class FuncMode(Mode):
+    """A module-level function: no object state; the result is outcome R."""
+
+    def __init__(self, tr, ret):
+        super().__init__(tr, None)
+        self.ret = ret
+
+    def ret_val(self, v, t):
+        return f"Val {self.coerce(v, t, self.ret, None)}"
+
+    def ret_exn(self, e):
+        return f"Exn {e}"
+
+    def fall_off(self):
+        if self.ret == "none":
+            return "Val tt"
+        if isinstance(self.ret, tuple) and self.ret[0] == "opt":
+            return "Val None"
+        bad(None, f"a function returning {self.ret} can end without a return")
+
+    def read_field(self, f):
+        bad(None, "self outside a class")
+
+    def write_field(self, f, v, t, rest):
+        bad(None, "self outside a class")
+
+    def handler_fun(self, ss, env):
+        return f"(fun _ : unit =>\n{self.stmts(ss, env)})"
+
+    def call_handler(self, h):
+        return f"{h} tt"
+
+    def call_self(self, *a):
+        bad(None, "self outside a class")
+
+
 class InitMode(Mode):
     """__init__: the fields are locals until the end; the result is outcome Cls."""
 
@@ -699,47 +863,95 @@ def module_consts(path: Path) -> dict[str, int]:
 ALLOWED_IMPORTS = {"__future__", "collections", "dataclasses", "typing", "mypy_extensions", "pyjelly.errors", "pyjelly.options"}
 
 
+CTX_STR = "Context {K : Type} (eqb : K -> K -> bool) (is_empty : K -> bool) (empty_str : K)."
 UNITS = {
-    # unit -> (source files, section context)
-    "lookup_enc": (["pyjelly/serialize/lookup.py"], "Context {K : Type} (eqb : K -> K -> bool) (is_empty : K -> bool) (empty_str : K)."),
-    "lookup_dec": (["pyjelly/parse/lookup.py"], "Context {K : Type} (eqb : K -> K -> bool) (is_empty : K -> bool) (empty_str : K)."),
+    # unit -> (source file, items to translate (None = every class of the file), section context)
+    "lookup_enc": ("pyjelly/serialize/lookup.py", None, CTX_STR),
+    "lookup_dec": ("pyjelly/parse/lookup.py", None, CTX_STR),
+    "hint": ("pyjelly/parse/ioutils.py", ["delimited_jelly_hint"], None),
+    "options": ("pyjelly/options.py", ["TRIPLES_ONLY_LOGICAL_TYPES", "validate_type_compatibility", "LookupPreset", "StreamTypes", "StreamParameters"], CTX_STR),
 }
 
 
+def item_name(n):
+    if isinstance(n, (ast.ClassDef, ast.FunctionDef)):
+        return n.name
+    if isinstance(n, ast.Assign) and len(n.targets) == 1 and isinstance(n.targets[0], ast.Name):
+        return n.targets[0].id
+    if isinstance(n, ast.AnnAssign) and isinstance(n.target, ast.Name):
+        return n.target.id
+    return None
+
+
 def translate_unit(repo: Path, unit: str) -> str:
-    rel, context = UNITS[unit]
-    files = [repo / r for r in rel]
+    import pbdesc
+
+    rel, items, context = UNITS[unit]
+    f = repo / rel
+    ENUM_TYPES.clear()
+    ENUM_TYPES.update(pbdesc.enums(repo / "pyjelly/jelly/rdf_pb2.py"))
     opts = module_consts(repo / "pyjelly/options.py")
-    tr = Translator({})
-    for f in files:
-        mod = ast.parse(f.read_text())
-        for n in mod.body:
+    tr = Translator(dict(opts) if rel == "pyjelly/options.py" else {})
+    mod = ast.parse(f.read_text())
+    chosen = []
+    for n in mod.body:
+        if isinstance(n, ast.ImportFrom) and n.module == "pyjelly.options":
+            for a in n.names:
+                if a.asname:
+                    bad(n, "import alias")
+                if a.name in opts:
+                    tr.consts[a.name] = opts[a.name]
+        if items is None:
+            # the whole file is the unit: nothing but imports, docstrings and classes may be there
             if isinstance(n, ast.ImportFrom):
                 if n.module not in ALLOWED_IMPORTS:
                     bad(n, "import")
-                if n.module == "pyjelly.options":
-                    for a in n.names:
-                        if a.name not in opts or a.asname:
-                            bad(n, "imported name is not an integer constant of pyjelly/options.py")
-                        tr.consts[a.name] = opts[a.name]
             elif isinstance(n, ast.ClassDef):
-                if n.bases or n.keywords:
-                    bad(n, "base classes")
-                tr.out.append(f"(* ---- class {n.name} ({f.relative_to(repo)}) *)")
-                tr.add_class(n)
-            elif isinstance(n, ast.Expr) and isinstance(n.value, ast.Constant):
-                continue
-            else:
+                chosen.append(n)
+            elif not (isinstance(n, ast.Expr) and isinstance(n.value, ast.Constant)):
                 bad(n, "module-level statement")
+        elif item_name(n) in items:
+            chosen.append(n)
+    if items is not None:
+        missing = set(items) - {item_name(n) for n in chosen}
+        if missing:
+            bad(None, f"{rel} no longer defines {sorted(missing)}")
+        # dependencies first (an item that mentions another one comes after it)
+        names = {item_name(n) for n in chosen}
+
+        def deps(n):
+            return {x.id for x in ast.walk(n) if isinstance(x, ast.Name) and x.id in names} - {item_name(n)}
+
+        ordered, rest = [], list(chosen)
+        while rest:
+            n = next((n for n in rest if deps(n) <= {item_name(m) for m in ordered}), None)
+            if n is None:
+                bad(None, "cyclic definitions")
+            rest.remove(n)
+            ordered.append(n)
+        chosen = ordered
+    for n in chosen:
+        if isinstance(n, ast.ClassDef):
+            if n.bases or n.keywords:
+                bad(n, "base classes")
+            tr.out.append(f"(* ---- class {n.name} ({rel}) *)")
+            tr.add_class(n)
+        elif isinstance(n, ast.FunctionDef):
+            tr.out.append(f"(* ---- def {n.name} ({rel}) *)")
+            add_function(tr, n)
+        elif isinstance(n, ast.Assign) and isinstance(n.value, ast.Set):
+            tr.int_sets[item_name(n)] = list(n.value.elts)
+        else:
+            bad(n, "module-level item")
     head = [
-        f"(* GENERATED by /verif/translate/py2v.py from {', '.join(rel)} -- do not edit. *)",
+        f"(* GENERATED by /verif/translate/py2v.py from {rel} -- do not edit. *)",
         "From PJ.Tie Require Import PyPrims.",
         "Local Open Scope Z_scope.",
         "Local Open Scope bool_scope.",
-        "Section Gen.",
-        context,
     ]
-    return "\n".join(head + tr.out + ["End Gen."]) + "\n"
+    if context:
+        return "\n".join(head + ["Section Gen.", context] + tr.out + ["End Gen."]) + "\n"
+    return "\n".join(head + tr.out) + "\n"
 
 
 def main() -> int:
